@@ -1,6 +1,6 @@
-(* C18 — Hypergraph morphism validation, monomorphism and convexity tests are exact. (convexity clause not yet a theorem: correspondence + checker only)
+(* C18 — Hypergraph morphism validation, monomorphism and convexity tests are exact.
    Property theorems only: each statement is spelled out and closed by [exact] of a lemma proved in Proofs/. *)
-From OHG Require Import Spec.Plain Proofs.C18Lemmas Proofs.C18Thm.
+From OHG Require Import Spec.GraphSpec Proofs.C18Lemmas Proofs.C18Thm Proofs.C18cThm Proofs.Assemble.
 
 Theorem C18_validate_iff : forall (O A : Type) (eqO : O -> O -> bool) (eqA : A -> A -> bool),
        (forall a b : O, eqO a b = true <-> a = b) ->
@@ -24,7 +24,7 @@ Theorem C18_validate_iff : forall (O A : Type) (eqO : O -> O -> bool) (eqA : A -
        (forall e : nat,
         e < length (h_x g) ->
         nth (ff_app x e) (decode_f (h_t h)) [] = map (ff_app w) (nth e (decode_f (h_t g)) [])).
-Proof. exact C18Thm.C18_validate_iff. Qed.
+Proof. exact (@C18Thm.C18_validate_iff). Qed.
 
 Theorem C18_validate_iff_strong : forall (O A : Type) (eqO : O -> O -> bool) (eqA : A -> A -> bool),
        (forall a b : O, eqO a b = true <-> a = b) ->
@@ -34,7 +34,7 @@ Theorem C18_validate_iff_strong : forall (O A : Type) (eqO : O -> O -> bool) (eq
        wf_hg h ->
        arrow_validate eqO eqA {| ar_source := g; ar_target := h; ar_w := w; ar_x := x |} =
        Ok (inl {| ar_source := g; ar_target := h; ar_w := w; ar_x := x |}) <-> all_conditions g h w x.
-Proof. exact C18Thm.C18_validate_iff_strong. Qed.
+Proof. exact (@C18Thm.C18_validate_iff_strong). Qed.
 
 Theorem C18_error_exact : forall (O A : Type) (eqO : O -> O -> bool) (eqA : A -> A -> bool),
        (forall a b : O, eqO a b = true <-> a = b) ->
@@ -47,7 +47,7 @@ Theorem C18_error_exact : forall (O A : Type) (eqO : O -> O -> bool) (eqA : A ->
        forall e : invalid_arrow,
        arrow_validate eqO eqA {| ar_source := g; ar_target := h; ar_w := w; ar_x := x |} = Ok (inr e) <->
        first_failure g h w x e.
-Proof. exact C18Thm.C18_error_exact. Qed.
+Proof. exact (@C18Thm.C18_error_exact). Qed.
 
 Theorem C18_error_truthful : forall (O A : Type) (eqO : O -> O -> bool) (eqA : A -> A -> bool),
        (forall a b : O, eqO a b = true <-> a = b) ->
@@ -60,7 +60,7 @@ Theorem C18_error_truthful : forall (O A : Type) (eqO : O -> O -> bool) (eqA : A
        forall e : invalid_arrow,
        arrow_validate eqO eqA {| ar_source := g; ar_target := h; ar_w := w; ar_x := x |} = Ok (inr e) ->
        first_failure g h w x e.
-Proof. exact C18Thm.C18_error_truthful. Qed.
+Proof. exact (@C18Thm.C18_error_truthful). Qed.
 
 Theorem C18_total : forall (O A : Type) (eqO : O -> O -> bool) (eqA : A -> A -> bool),
        (forall a b : O, eqO a b = true <-> a = b) ->
@@ -72,14 +72,52 @@ Theorem C18_total : forall (O A : Type) (eqO : O -> O -> bool) (eqA : A -> A -> 
        wf_ff x ->
        exists r : hg_arrow O A + invalid_arrow,
          arrow_validate eqO eqA {| ar_source := g; ar_target := h; ar_w := w; ar_x := x |} = Ok r.
-Proof. exact C18Thm.C18_total. Qed.
+Proof. exact (@C18Thm.C18_total). Qed.
 
 Theorem C18_mono : forall (O A : Type) (m : hg_arrow O A),
        wf_ff (ar_w m) ->
        wf_ff (ar_x m) ->
        exists b : bool,
          arrow_is_monomorphism m = Ok b /\ (b = true <-> NoDup (table (ar_w m)) /\ NoDup (table (ar_x m))).
-Proof. exact C18Thm.C18_mono. Qed.
+Proof. exact (@C18Thm.C18_mono). Qed.
+
+Theorem C18_convex : forall B : Backend,
+       BackendOK B ->
+       forall (O A : Type) (g h : hg O A) (w x : ff),
+       wf_hg h ->
+       wf_ff w ->
+       target w = length (h_w h) ->
+       wf_ff x ->
+       target x = length (h_x h) ->
+       NoDup (table w) ->
+       NoDup (table x) ->
+       exists b : bool,
+         arrow_is_convex_subgraph B {| ar_source := g; ar_target := h; ar_w := w; ar_x := x |} = Ok b /\
+         (b = true <-> Convex_arrow {| ar_source := g; ar_target := h; ar_w := w; ar_x := x |}).
+Proof. exact (@Assemble.C18f_convex). Qed.
+
+Theorem C18_convex_iff : forall B : Backend,
+       BackendOK B ->
+       forall (O A : Type) (g h : hg O A) (w x : ff),
+       wf_hg h ->
+       wf_ff w ->
+       target w = length (h_w h) ->
+       wf_ff x ->
+       target x = length (h_x h) ->
+       exists b : bool,
+         arrow_is_convex_subgraph B {| ar_source := g; ar_target := h; ar_w := w; ar_x := x |} = Ok b /\
+         (b = true <->
+          (NoDup (table w) /\ NoDup (table x)) /\
+          Convex_arrow {| ar_source := g; ar_target := h; ar_w := w; ar_x := x |}).
+Proof. exact (@Assemble.C18f_convex_iff). Qed.
+
+Theorem C18_convex_nonmono : forall (O A : Type) (B : Backend) (m : hg_arrow O A),
+       arrow_is_monomorphism m = Ok false -> arrow_is_convex_subgraph B m = Ok false.
+Proof. exact (@C18cThm.C18_convex_nonmono). Qed.
+
+Theorem C18_convex_two_layer : forall (O A : Type) (h : hg O A) (w x : ff),
+       Convex h w x <-> (forall b : nat, sel w b -> ~ R1 h w x b).
+Proof. exact (@C18cThm.Convex_two_layer). Qed.
 
 Example C18_nonvacuous : wf_hg C18Examples.ex_g /\ wf_hg C18Examples.ex_h /\ wf_ff C18Examples.ex_w /\ wf_ff C18Examples.ex_x /\ all_conditions C18Examples.ex_g C18Examples.ex_h C18Examples.ex_w C18Examples.ex_x.
 Proof. exact (conj C18Examples.ex_g_wf (conj C18Examples.ex_h_wf (conj C18Examples.ex_w_wf (conj C18Examples.ex_x_wf C18Examples.ex_valid_conditions)))). Qed.
@@ -90,3 +128,7 @@ Print Assumptions C18_error_exact.
 Print Assumptions C18_error_truthful.
 Print Assumptions C18_total.
 Print Assumptions C18_mono.
+Print Assumptions C18_convex.
+Print Assumptions C18_convex_iff.
+Print Assumptions C18_convex_nonmono.
+Print Assumptions C18_convex_two_layer.
